@@ -135,9 +135,10 @@ Print Assumptions C17_tree_guarded_sections_isolated_partial.
    4. Deadlock freedom among a service's own mutexes.  lock_order_ok: ranks are inferred and then
    CHECKED — a mutex is only acquired while holding mutexes of strictly smaller rank.  Then in every
    reachable state of every history some live thread can take a step: the service's threads never
-   all wait for each other.  (Model semantics: RLock is enabled iff nobody holds the mutex
-   exclusively; Go's writer preference is not modelled — re-acquisition, the case where it matters
-   for one thread, is rejected by the analysis itself.) *)
+   all wait for each other.  Stated twice: for the plain read/write lock (RLock enabled iff nobody
+   holds the mutex exclusively), and with Go's WRITER PREFERENCE (`can_step_wp`: a reader also waits
+   while any other thread sits at an exclusive Lock of the same mutex — an over-approximation of
+   "a writer is waiting", the conservative direction for progress). *)
 Theorem C17_deadlock_free_partial :
   forall (skip : field -> bool) (single : nat -> bool) (g : graph) (entries : list nat),
     analysis_ok skip single g entries = true ->
@@ -146,6 +147,15 @@ Theorem C17_deadlock_free_partial :
     forall S, xsteps single g entries S0 S -> live S -> can_step g S.
 Proof. exact deadlock_free_lemma. Qed.
 Print Assumptions C17_deadlock_free_partial.
+
+Theorem C17_deadlock_free_writer_preference_partial :
+  forall (skip : field -> bool) (single : nat -> bool) (g : graph) (entries : list nat),
+    analysis_ok skip single g entries = true ->
+    lock_order_ok g entries = true ->
+    forall S0, initial single g entries S0 ->
+    forall S, xsteps single g entries S0 S -> live S -> can_step_wp g S.
+Proof. exact deadlock_free_wp_lemma. Qed.
+Print Assumptions C17_deadlock_free_writer_preference_partial.
 
 Theorem C17_tree_lock_order_ok :
   forallb (fun '(_, g, e, _, _) => lock_order_ok g e) services = true.
@@ -157,6 +167,12 @@ Theorem C17_tree_deadlock_free_partial :
     forall S, xsteps sg g e [] S -> live S -> can_step g S.
 Proof. exact (tree_deadlock_free_lemma C17_tree_analysis_ok C17_tree_lock_order_ok). Qed.
 Print Assumptions C17_tree_deadlock_free_partial.
+
+Theorem C17_tree_deadlock_free_writer_preference_partial :
+  forall name g e sk sg, In (name, g, e, sk, sg) services ->
+    forall S, xsteps sg g e [] S -> live S -> can_step_wp g S.
+Proof. exact (tree_deadlock_free_wp_lemma C17_tree_analysis_ok C17_tree_lock_order_ok). Qed.
+Print Assumptions C17_tree_deadlock_free_writer_preference_partial.
 
 (* ------------------------------------------------------------------------------------------------
    5. Whole operations, where the skeleton stops: the account managers' refresh / lookup pair with its
@@ -238,6 +254,12 @@ Proof. vm_compute. reflexivity. Qed.
 Example C17_discipline_rejects_two_guards :
   discipline_ok (fun _ => false) (fun _ => false) (graph_accesses two_guards [0%nat; 3%nat]) = false.
 Proof. vm_compute. reflexivity. Qed.
+
+(* writer preference restricts: a reader at its RLock waits for the writer sitting at its Lock, who can go *)
+Example C17_writer_preference_example :
+  let S := [(At 0, []); (At 3, [])] in
+  may_step guarded_example S 1 /\ ~ may_step_wp guarded_example S 1 /\ can_step_wp guarded_example S.
+Proof. exact writer_preference_example. Qed.
 
 (* the snapshot theorems speak about schedules that do answer: a refresh between two lookups *)
 Example C17_snapshot_example :
